@@ -53,13 +53,13 @@ MATCH = {
     "far": dict(delta=0.36, nf=5, kw={}, ok=False),
     "nf": dict(delta=0.0, nf=4, kw={}, ok=False),
 }
-ERRS = ["both", "none", "ini-only", "fin-only"]
+ERRS = ["both", "none", "ini-only", "fin-only", "fin-mixed", "fin-mixed-rev"]  # mixed: only every other target of the final EKO carries an error
 RT = 1e-13  # rounding allowance relative to |later|.|earlier| (a 42-term dot product needs < 1e-14)
 
 
 def _ops(case):
     nx = case["nx"]
-    e_has = case["err"] in ("both", "ini-only")
+    e_has = case["err"] in ("both", "ini-only", "fin-mixed", "fin-mixed-rev")
     l_has = case["err"] in ("both", "fin-only")
     ini = {}
     for k, ep in enumerate(LAYOUTS[case["layout"]]):
@@ -69,7 +69,8 @@ def _ops(case):
     fin = {}
     for k, ep in enumerate(TARGET_SETS[case["targets"]]):
         seed = 3 + int(ep[0]) % 7
-        fin[ep] = (T.tensor(case["lkind"], nx, seed), T.error(case["lkind"], nx, seed) if l_has else None)
+        has = l_has or (case["err"] == "fin-mixed" and k % 2 == 0) or (case["err"] == "fin-mixed-rev" and k % 2 == 1)
+        fin[ep] = (T.tensor(case["lkind"], nx, seed), T.error(case["lkind"], nx, seed) if has else None)
     return ini, fin
 
 
